@@ -641,22 +641,27 @@ pub fn eval_unit_name(
                     ))
                 }
             };
-            let property = if let Some(prop) = res.properties.properties.get(property) {
-                if prop.input == Number::one() {
-                    &prop.input_name
-                } else {
-                    property
-                }
-            } else {
-                property
+            let (name, constant) = match res.properties.properties.get(property) {
+                // A constant of the substance has a unit of its own, like
+                // electron_mass. That is the property of an amount of
+                // one: `mass of (2 electron)` is twice that unit.
+                Some(prop) if prop.input == Number::one() => (
+                    ctx.canonicalize(&prop.input_name)
+                        .unwrap_or_else(|| prop.input_name.clone()),
+                    if res.amount.dimless() {
+                        res.amount.value.clone()
+                    } else {
+                        Numeric::one()
+                    },
+                ),
+                // Otherwise the property's name stands for the whole
+                // target. It is not the name of a unit: `mass` is not to
+                // be read as the plural of mas.
+                _ => (property.clone(), Numeric::one()),
             };
             let mut map = BTreeMap::new();
-            map.insert(
-                ctx.canonicalize(property)
-                    .unwrap_or_else(|| property.clone()),
-                1,
-            );
-            Ok((map, Numeric::one()))
+            map.insert(name, 1);
+            Ok((map, constant))
         }
         Expr::UnaryOp(ref unaryop) => match unaryop.op {
             UnaryOpType::Positive => eval_unit_name(ctx, &unaryop.expr),
